@@ -135,7 +135,8 @@ impl Property for C08 {
     fn rule(&self) -> &'static str {
         "wide and nested fans (every script holds its job for a drawn simulated duration) built by redo \
          -jN (own jobserver, N=1..8) or under an inherited make-style jobserver with K=0..6 tokens, log \
-         capture on (token cheating possible) and off, with succeeding and failing scripts, optionally \
+         capture on (token cheating possible) and off, with succeeding and failing scripts and (every fifth scenario) an error exit (a name \
+         below a regular file on the command line, jobs of the other names still running), optionally \
          with a second command contending for the same targets so that lock waits give up tokens; \
          select-stall faults make child exits and token arrivals coincide; oracle at every scheduling \
          step: scripts inside a work section + bytes in the token pipe <= N (+1 per live redo-log); at \
@@ -272,6 +273,18 @@ impl Property for C08 {
             ts.push("top".into());
             ts.dedup();
         }
+        // error exit: one name lies below a regular file (stat fails with
+        // ENOTDIR, an internal error and not a failed script); redo gives up
+        // with jobs of the other names possibly still running
+        let internal_error = !cheat_prone && index % 5 == 4;
+        if internal_error {
+            let mut v = top_deps.clone();
+            v.truncate(rng.range(2, v.len().max(2) as u64) as usize);
+            let at = rng.range(1, v.len() as u64) as usize;
+            v.insert(at, "s0/x".into());
+            ts = v;
+            meta.insert("internal_error".to_string(), serde_json::json!(true));
+        }
         if inherited {
             let k = if cheat_prone { rng.range(1, 2) as u32 } else { rng.range(0, 6) as u32 };
             let prog = if rng.chance(1, 2) { "redo" } else { "redo-ifchange" };
@@ -406,7 +419,15 @@ impl Property for C08 {
             .filter_map(|a| arg_path(&cmd.cwd, a))
             .any(|t| matches!(world.eval(&t), Err(crate::model::EvalErr::Fail(_))));
         let st = g.results[0].status;
-        if !v.iter().any(|x| x.kind == "token-selfcheck") {
+        let internal_error = case.meta.get("internal_error").and_then(|x| x.as_bool()).unwrap_or(false);
+        if internal_error {
+            if st == Some(0) {
+                v.push(Violation {
+                    kind: "status-wrong".into(),
+                    detail: format!("{:?} exited 0 although a name on its command line cannot be examined", cmd.argv),
+                });
+            }
+        } else if !v.iter().any(|x| x.kind == "token-selfcheck") {
             if cone && st == Some(0) {
                 v.push(Violation {
                     kind: "status-wrong".into(),
@@ -459,6 +480,9 @@ impl Property for C08 {
                 .filter(|e| matches!(e.kind, EvKind::Op(Class::Pipe)) && e.text.starts_with("read fd100 "))
                 .count() as u64;
             *m.entry("token_pipe_reads".to_string()).or_insert(0) += tr;
+            if g.results.iter().any(|r| r.stderr.contains("Not a directory")) {
+                *m.entry("internal_error_exit".to_string()).or_insert(0) += 1;
+            }
         }
         m
     }
